@@ -184,6 +184,8 @@ pub struct ARunner {
     pub sh: Rc<RefCell<Shared>>,
     pub nwk: [u8; 16],
     pub app: [u8; 16],
+    /// header fields, kept to rebuild the device around a restored session
+    pub hdr: (lorawan_device::region::Region, u64, Vec<u32>, bool),
 }
 
 fn parse_item(t: &str) -> Option<Item> {
@@ -214,7 +216,8 @@ fn parse_header(hd: &str) -> Option<(ARunner, Option<String>)> {
     if w[7] == "1" {
         dev.enable_class_c();
     }
-    Some((ARunner { dev, sh, nwk: NWK_KEY, app: APP_KEY }, None))
+    let forced2: Vec<u32> = if w[4] == "-" { vec![] } else { w[4].split(',').map(|x| x.parse().unwrap_or(0)).collect() };
+    Some((ARunner { dev, sh, nwk: NWK_KEY, app: APP_KEY, hdr: (reg, seed, forced2, w[7] == "1") }, None))
 }
 
 impl ARunner {
@@ -260,6 +263,30 @@ impl ARunner {
                     Some(Ok(JoinResponse::JoinSuccess)) => Some("ok".into()),
                     _ => Some("abp-failed".into()),
                 }
+            }
+            ["sess", da, up, down] => {
+                // a device constructed around a stored session (`new_with_session`)
+                let da: u32 = da.parse().ok()?;
+                let base = lorawan_device::mac::Session::new(NwkSKey::from(NWK_KEY), AppSKey::from(APP_KEY), DevAddr::from_value(da));
+                let mut j = serde_json::to_value(&base).unwrap();
+                j["fcnt_up"] = serde_json::json!(up.parse::<u32>().ok()?);
+                j["fcnt_down"] = if *down == "-" { serde_json::json!(null) } else { serde_json::json!(down.parse::<u32>().ok()?) };
+                let sess: lorawan_device::mac::Session = serde_json::from_value(j).ok()?;
+                let (reg, seed, forced, cc) = self.hdr.clone();
+                let mut dev: Dev = Device::new_with_session(
+                    region::Configuration::new(reg),
+                    MockRadio { sh: self.sh.clone() },
+                    MockTimer { sh: self.sh.clone() },
+                    HRng::new(seed, forced),
+                    Some(sess),
+                );
+                if cc {
+                    dev.enable_class_c();
+                }
+                self.dev = dev;
+                self.nwk = NWK_KEY;
+                self.app = APP_KEY;
+                Some("ok".into())
             }
             ["asend", port, conf, data] => {
                 self.set_script(&st)?;
